@@ -15,7 +15,7 @@
 
     replyspec := none | nonjson=<i> | nonutf8=<i> | nonobj=<i> | obj:<err>:<res>
     err       := absent | null | other=<i> | dict=<code>
-    code      := absent | empty | int=<n> | dec=<number text> | true | false | null | str | unhashable=<i>
+    code      := absent | empty | int=<n> | dec=<number text> | true | false | null | str | nan | inf | -inf | unhashable=<i>
     res       := absent | v=<text>
 -/
 import Driver.Util
@@ -33,6 +33,7 @@ def parseCode? (s : String) : Option CodeVal :=
   else if s = "false" then some (.bool false)
   else if s = "null" then some .null
   else if s = "str" then some .str
+  else if s = "nan" ∨ s = "inf" ∨ s = "-inf" then some .float
   else if s.startsWith "unhashable=" then some .unhashable
   else if s.startsWith "int=" then (parseInt? (s.drop 4).toString).map .int
   else if s.startsWith "dec=" then
@@ -77,9 +78,17 @@ def showOutcome : Outcome → String
   | .raise cls code => "raise:" ++ cls ++ ":" ++ code
   | .pyExc cls => "err:py:" ++ cls
 
+/-- history tokens: what becomes of each `_call` (the fate travels into `Req.call`) -/
 def parseReq? (s : String) : Option Req :=
   if s = "batch" then some .batch
-  else if s = "ok" ∨ s = "err" ∨ s = "bad" ∨ s = "none" ∨ s = "miss" then some .call
+  else if s = "ok" then some (.call (.replied (.obj .null (some "1"))))
+  else if s = "err" then some (.call (.replied (.obj (.dict (.int (-1))) (some "@null"))))
+  else if s = "bad" then some (.call (.replied .nonJson))
+  else if s = "none" then some (.call (.replied .noResponse))
+  else if s = "miss" then some (.call (.replied (.obj .absent none)))
+  else if s = "nonutf8" then some (.call (.replied .nonUtf8))
+  else if s = "nonobj" then some (.call (.replied .nonObject))
+  else if s = "connfail" ∨ s = "reqfail" then some (.call .connectionError)
   else none
 
 /-- `X.deserialize(unhexlify_str(hexlify_str(obj.serialize())))` -/
